@@ -52,7 +52,7 @@ def run(prog, chk, tier):
         "by enumeration. That the response parses back is C03.")
     chk.trusted += ["rustc MIR", "Iterator::map/filter/collect/any semantics (order preserving)", "spec in pylib/rules/c16.py"]
     from rules import police_e2 as PE
-    PE.policing(prog, chk)
+    PE.policing(prog, chk, sizes=(0, 1, 2, 3) if tier == "thorough" else (0, 1, 2))
     # ---- comprehension_required
     cb = prog.bodies["stun_types::attribute::AttributeType::comprehension_required"]
     o = Origins(prog, cb).local(0)
